@@ -1345,3 +1345,60 @@ pub fn read_memory_by_pid(pid: Pid, addr: usize, read_n: usize) -> Result<Vec<u8
 
     Ok(result)
 }
+
+#[cfg(feature = "verif")]
+impl Debugger {
+    /// verification hook: `Debugee::mapping_offset_for_pc`
+    pub fn verif_mapping_offset_for_pc(&self, addr: usize) -> Option<usize> {
+        self.debugee
+            .mapping_offset_for_pc(RelocatedAddress::from(addr))
+            .ok()
+    }
+
+    /// verification hook: the registry's mapping table (file -> load offset)
+    pub fn verif_mappings(&self) -> Vec<(PathBuf, usize)> {
+        self.debugee.verif_mappings()
+    }
+
+    /// verification hook: `GlobalAddress::relocate_to_segment` for the object parsed from `file`
+    pub fn verif_relocate(&self, file: &Path, global: usize) -> Result<usize, Error> {
+        let dwarf = self.debugee.debug_info_from_file(file)?;
+        GlobalAddress::from(global)
+            .relocate_to_segment(&self.debugee, dwarf)
+            .map(usize::from)
+    }
+
+    /// verification hook: `RelocatedAddress::into_global`
+    pub fn verif_into_global(&self, addr: usize) -> Result<usize, Error> {
+        RelocatedAddress::from(addr)
+            .into_global(&self.debugee)
+            .map(usize::from)
+    }
+
+    /// verification hook: number of deferred breakpoint requests still waiting
+    pub fn verif_deferred_len(&self) -> usize {
+        self.breakpoints.verif_deferred_len()
+    }
+}
+
+#[cfg(feature = "verif")]
+impl Debugger {
+    /// verification hook: see `DqeExecutor::verif_variable_dies`
+    #[allow(clippy::type_complexity)]
+    pub fn verif_variable_dies(
+        &self,
+        selector: &Selector,
+    ) -> Result<Vec<(usize, Option<String>, Option<Vec<(u64, u64)>>)>, Error> {
+        disable_when_not_stared!(self);
+        variable::execute::DqeExecutor::new(self).verif_variable_dies(selector)
+    }
+
+    /// verification hook: see `DqeExecutor::verif_variable_locations`
+    pub fn verif_variable_locations(
+        &self,
+        selector: &Selector,
+    ) -> Result<Vec<(usize, Option<String>, Option<Vec<u8>>)>, Error> {
+        disable_when_not_stared!(self);
+        variable::execute::DqeExecutor::new(self).verif_variable_locations(selector)
+    }
+}
